@@ -28,9 +28,18 @@ type c14Case struct {
 
 func init() { register("C14", "exploration", runC14, replayC14) }
 
+// the bytes returned for the previous message and what they should still be (an encoder that reuses a buffer
+// changes them when the next message is encoded)
+var c14Prev, c14PrevWant []byte
+var c14PrevCase c14Case
+
 func c14Expect(c *ctx, op string, msg ast.HSMSMessage, want [10]byte, typ string, cs c14Case) {
 	b := msg.ToBytes()
 	wb := append([]byte{0, 0, 0, 10}, want[:]...)
+	if c14Prev != nil && !bytes.Equal(c14Prev, c14PrevWant) {
+		c.Violation("C14/earlier-result-changed-by-later-encoding", fmt.Sprintf("bytes returned earlier were %x and now read %x after another message was encoded", c14PrevWant, c14Prev), c14PrevCase)
+	}
+	c14Prev, c14PrevWant, c14PrevCase = b, append([]byte(nil), wb...), cs
 	c.Note(rng.Mix(rng.HashStr(op), rng.Hash64(wb)), true)
 	c.Class("constructed/" + op)
 	if !bytes.Equal(b, wb) {
@@ -112,6 +121,30 @@ func c14Eval(c *ctx, cs c14Case) {
 				b2 = byte(cs.PType)
 			}
 			c14Expect(c, cs.Op, msg, hdr(cs.Session, b2, byte(cs.Code), 7, sys), "reject.req", cs)
+		}
+	case "raw-request-response":
+		// a request that came off the wire (generic constructor, arbitrary remaining header bytes): the response echoes
+		// session id and system bytes and nothing else of the request
+		h, _ := hex.DecodeString(cs.Header)
+		req := ast.NewHSMSControlMessage(h)
+		sess := int(h[0])<<8 | int(h[1])
+		switch h[5] {
+		case 1:
+			if build(func() { msg = ast.NewHSMSMessageSelectRsp(req, byte(cs.Code)) }) {
+				c14Expect(c, "select.rsp<-raw", msg, hdr(sess, 0, byte(cs.Code), 2, h[6:10]), "select.rsp", cs)
+			}
+		case 3:
+			if build(func() { msg = ast.NewHSMSMessageDeselectRsp(req, byte(cs.Code)) }) {
+				c14Expect(c, "deselect.rsp<-raw", msg, hdr(sess, 0, byte(cs.Code), 4, h[6:10]), "deselect.rsp", cs)
+			}
+		case 5:
+			if build(func() { msg = ast.NewHSMSMessageLinktestRsp(req) }) {
+				c14Expect(c, "linktest.rsp<-raw", msg, hdr(0xFFFF, 0, 0, 6, h[6:10]), "linktest.rsp", cs)
+			}
+		}
+		// the request itself is unchanged by having been answered
+		if !bytes.Equal(req.ToBytes(), append([]byte{0, 0, 0, 10}, h...)) {
+			c.Violation("C14/request-changed-by-response-constructor", fmt.Sprintf("request %x now encodes to %x", h, req.ToBytes()), cs)
 		}
 	case "type":
 		// Type() is a total function of (PType, SType), independent of every other byte
@@ -240,6 +273,12 @@ func runC14(c *ctx) {
 			}
 		}
 	}
+	for i := 0; i < c.pick(20000, 300000); i++ {
+		h := r.Bytes(10)
+		h[4] = 0
+		h[5] = []byte{1, 3, 5}[i%3]
+		c14Eval(c, c14Case{Op: "raw-request-response", Header: hex.EncodeToString(h), Code: r.Intn(256)})
+	}
 	for n := 0; n < 10; n++ {
 		for rep := 0; rep < 20; rep++ {
 			h := r.Bytes(n)
@@ -249,7 +288,7 @@ func runC14(c *ctx) {
 	for rep := 0; rep < 50; rep++ {
 		c14Eval(c, c14Case{Op: "wrong-request", Session: r.Intn(65536), Sys: pickSys()})
 	}
-	c.Required = []string{"constructed/select.req", "constructed/reject.req", "constructed/linktest.rsp", "type/undefined", "type/separate.req", "request-kind-check", "short-header"}
+	c.Required = []string{"constructed/select.req", "constructed/reject.req", "constructed/linktest.rsp", "constructed/linktest.rsp<-raw", "constructed/select.rsp<-raw", "type/undefined", "type/separate.req", "request-kind-check", "short-header"}
 }
 
 func replayC14(c *ctx, raw json.RawMessage) {
